@@ -33,7 +33,7 @@ def make_record(scene: dict, scale: int = 1):
     return record
 
 
-def make_ruleset(scene: dict, rules: list, scale: int = 1):
+def make_ruleset(scene: dict, rules: list, scale: int = 1, reuse=None):
     """ abstract rules -> real Ruleset with one DynamicProfile per profile closing over the hit table """
     texts = []
     for rule in rules:
@@ -44,6 +44,9 @@ def make_ruleset(scene: dict, rules: list, scale: int = 1):
         for real, rule in zip(parsed, rules):
             real.cutoff = rule["cutoff"]
             real.neighbourhood = rule["nbhd"]
+    if reuse is not None:
+        # the rule objects of an earlier ruleset (the pipeline keeps one ruleset for all records of a run)
+        parsed = reuse.rules
     table = {}
     for idx, gene_hits in enumerate(scene["hits"]):
         for hit in gene_hits:
@@ -76,9 +79,16 @@ def project_protos(results, scale: int, with_objects: bool = False):
     return [pair[0] for pair in out]
 
 
-def detect(scene: dict, rules: list, scale: int = 1) -> list:
+def detect(scene: dict, rules: list, scale: int = 1, earlier_hits: list = None) -> list:
+    """ earlier_hits: the hit table of another record with equally named genes that the same rule objects were used on
+        first, as for the second record of a multi-record run """
+    used = None
+    if earlier_hits is not None:
+        earlier = dict(scene, hits=earlier_hits)
+        used = make_ruleset(earlier, rules, scale)
+        detect_protoclusters_and_signatures(make_record(earlier, scale), used)
     record = make_record(scene, scale)
-    results = detect_protoclusters_and_signatures(record, make_ruleset(scene, rules, scale))
+    results = detect_protoclusters_and_signatures(record, make_ruleset(scene, rules, scale, reuse=used))
     return project_protos(results, scale)
 
 
